@@ -171,11 +171,13 @@ impl Prop for Unrelated {
                     ops.push(format!("add item {name} to {}", m.path_str()));
                     if t.chance(1, 5) {
                         m.items.push(Item::Enum(EnumDef {
+                            sty: 0,
                             vis: true,
                             name,
                             doc: vec![],
                             base: "u16".into(),
                             variants: vec![Variant {
+                                sty: 0,
                                 name: "Only".into(),
                                 value: Some(Num::d(7)),
                                 default: false,
